@@ -141,7 +141,12 @@ NAdv ==
            \/ AdvOn(b + 15) /\ ForgeConfirm
         /\ Log([op |-> "adv", what |-> adv'[Len(adv')].op, at |-> at, kind |-> adv'[Len(adv')].kind, pos |-> adv'[Len(adv')].pos])
 
-Next == NSetup \/ NInit \/ NRespond \/ NConfirmB \/ NConfirmA \/ NAdv
+(* the genuine message reaches the initiator after it refused an altered one (once per run) *)
+NRedeliver ==
+  /\ ~(\E i \in 1..Len(hist) : hist[i].op = "redeliver")
+  /\ Redeliver
+  /\ hist' = Append(hist, [op |-> "redeliver"]) /\ UNCHANGED sc
+Next == NSetup \/ NInit \/ NRespond \/ NConfirmB \/ NConfirmA \/ NAdv \/ NRedeliver
 Spec == Init /\ [][Next]_vars
 
 (* ---- properties (all cheap: no hashing, no scalar multiplication) ---- *)
